@@ -136,6 +136,25 @@ theorem C13_reconnect_after_fault (s s' : CS) (h : step s .reconnStart = some s'
   simp only [stepCore, L13.guard_eq_some, Bool.and_eq_true, decide_eq_true_eq] at ht
   exact ht.1.2
 
+/-- what happens after a fault on the established link `c`: the link is shut, DISCONNECTED is reported, the receive task ends, one
+reconnect task is started, waits 500 ms and calls connect(), which is refused `k` times and then accepted with the link `n` -/
+def faultRecoveryTrace (c k n : Nat) : List Ev :=
+  [.envEof c, .writerClose c, .status .disconnected, .recvExit c false, .reconnStart, .reconnSleep 500, .reconnCall] ++
+    (List.range k).flatMap (fun i => [Ev.implStart, .implFail, .sleep (backoff (i + 1))]) ++
+    [.implStart, .implOk n, .status .connected, .connReturn, .reconnEnd, .recvStart n]
+
+/-- **Recovery after a fault on an established link, for every k**: from any CONNECTED state with its receive task alive, no connect
+running and no reconnect task alive, the run above is accepted and ends CONNECTED on the new link — DISCONNECTED and CONNECTED
+reported once each, in that order, one receive task on the new link, the old link shut, the reconnect task gone -/
+theorem C13_recovers_after_fault (s : CS) (c k : Nat) (hst : s.st = .connected) (hc : s.conn = some c) (hr : s.recv = some c)
+    (ha : s.connActive = false) (hp : s.implPending = false) (hre : s.reconn = 0) (hcf : s.closeFromRecv = false) :
+    ∃ s', runTrace s (faultRecoveryTrace c k s.nextConn) = some s' ∧ s'.st = .connected ∧ s'.recv = some s.nextConn ∧
+      s'.statusLog = s.statusLog ++ [.disconnected, .connected] ∧ s'.conn = some s.nextConn ∧ c ∈ s'.writerClosed ∧ s'.reconn = 0 := by
+  exact L13.recovers_after_fault k hst hc hr ha hre
+
+example : (runTrace init ([.connCall, .implStart, .implOk 1, .status .connected, .connReturn, .recvStart 1] ++ faultRecoveryTrace 1 2 2)).map
+    (fun s => (s.st, s.recv, s.statusLog, s.reconn)) = some (.connected, some 2, [.connected, .disconnected, .connected], 0) := by decide +kernel
+
 -- a second reconnect task while one is alive, and a reconnect that does not wait, are not behaviours of the model
 example : runTrace init [.connCall, .implStart, .implOk 1, .status .connected, .connReturn, .recvStart 1, .envEof 1, .writerClose 1,
     .status .disconnected, .recvExit 1 false, .reconnStart, .sendCall 1, .writeFail 1 1, .reconnStart] = none := by decide +kernel
